@@ -1440,14 +1440,16 @@ CHECKS["C04"] = lin_pipeline
 
 
 # =========================================================================== C16: async-lock flavour
-OBSA_TRACE = dict(OBS_TRACE, FutIds={1, 2}, MaxQ=8, Flavor="async")
+OBSA_TRACE = dict(OBS_TRACE, FutIds={1, 2}, MaxQ=8, TwoStage={True}, Flavor="async")
 
 
 def async_pipeline(prop, tier, seed, work, t0):
     quick = tier == "quick"
-    a_mc = dict(OBS_MC, FutIds={1, 2}, MaxQ=2)
+    # generation assumes the two-stage next() of the current code (the trace specification follows either); the model is
+    # checked for both
+    a_mc = dict(OBS_MC, FutIds={1, 2}, MaxQ=2, TwoStage={True})
     cfg = os.path.join(work, "MCObsAsync.cfg")
-    write_cfg(cfg, spec="ASpec", constants=dict(a_mc, Depth=6 if quick else 7), view="View", constraints=["Bound"],
+    write_cfg(cfg, spec="ASpec", constants=dict(a_mc, TwoStage={True, False}, Depth=6 if quick else 7), view="View", constraints=["Bound"],
               invariants=["TypeOK", "ATypeOK", "ReadyIffUnseen", "NoLostWake", "ClosedIffNoOwner", "LockExclusion", "GrantExclusion",
                           "EagerService", "WaitersConsistent", "LockWaitersWoken", "WokenWriterCompletes", "WokenReaderProceeds"])
     mc = tlc("GenObsAsync", cfg, work, workers=8, timeout=3000, tag="mc")
@@ -1493,14 +1495,14 @@ def async_pipeline(prop, tier, seed, work, t0):
     for j, (subs_, d) in enumerate([({1}, 9 if quick else 10), ({1, 2}, 8 if quick else 9)]):
         c = os.path.join(work, "GenAWait%d.cfg" % j)
         write_cfg(c, spec="SpecAWait", constants=dict(NV=3, OwnerIds={1}, SubIds=subs_, WeakIds={1}, GuardIds={1}, Kinds={"shared"},
-                                                     FutIds={1, 2}, MaxQ=3, Depth=d),
+                                                     FutIds={1, 2}, MaxQ=3, TwoStage={True}, Depth=d),
                   constraints=["BoundTree"], invariants=["PrintAtDepth"])
         k, _ = gen_behaviours("GenObsAsync", c, work, beh, "tree", tag="await%d" % j, workers=12, timeout=3000)
         n += k
         log("gen async wait tree %s: %d" % (sorted(subs_), k))
     c = os.path.join(work, "GenASim.cfg")
     write_cfg(c, spec="ASpec", constants=dict(NV=3, OwnerIds={1, 2, 3}, SubIds={1, 2, 3, 4}, WeakIds={1}, GuardIds={1, 2}, FutIds={1, 2},
-                                             Kinds={"unique", "shared"}, MaxQ=3, Depth=40),
+                                             Kinds={"unique", "shared"}, MaxQ=3, TwoStage={True}, Depth=40),
               constraints=["BoundTree"], invariants=["PrintAtDepth"])
     k, _ = gen_behaviours("GenObsAsync", c, work, beh, "sim", num=300 if quick else 20000, depth=41, seed=seed, tag="asim", timeout=1500)
     n += k
